@@ -47,6 +47,12 @@ Table == <<
   [n |-> "environment list", top |-> FALSE, p |-> <<"environment">>, short |-> L(<<S("A=1"), S("B="), S("C"), S("D=x=y")>>), long |-> M([k \in {"A", "B", "C", "D"} |-> CASE k = "A" -> S("1") [] k = "B" -> S("") [] k = "C" -> Null [] k = "D" -> S("x=y")])],
   [n |-> "labels list", top |-> FALSE, p |-> <<"labels">>, short |-> Sq2(S("com.x=1"), S("bare")), long |-> M2("com.x", S("1"), "bare", S(""))],
   [n |-> "build args list", top |-> FALSE, p |-> <<"build">>, short |-> M2("context", S("."), "args", Sq2(S("V=1"), S("W"))), long |-> M2("context", S("."), "args", M2("V", S("1"), "W", Null))],
+  [n |-> "build args list with = in the value", top |-> FALSE, p |-> <<"build">>, short |-> M2("context", S("."), "args", Sq2(S("A=b=c"), S("B=="))), long |-> M2("context", S("."), "args", M2("A", S("b=c"), "B", S("=")))],
+  [n |-> "build args bare keys, one empty in the environment", top |-> FALSE, p |-> <<"build">>, short |-> M2("context", S("."), "args", Sq2(S("EMPTYVAR"), S("SETVAR"))), long |-> M2("context", S("."), "args", M2("EMPTYVAR", Null, "SETVAR", Null))],
+  [n |-> "environment bare keys, one empty in the environment", top |-> FALSE, p |-> <<"environment">>, short |-> Sq2(S("EMPTYVAR"), S("SETVAR")), long |-> M2("EMPTYVAR", Null, "SETVAR", Null)],
+  [n |-> "additional_contexts list", top |-> FALSE, p |-> <<"build">>, short |-> M2("context", S("."), "additional_contexts", Sq2(S("src=https://example.com/r.git?ref=v1&depth=1"), S("img=docker-image://x:1"))),
+     long |-> M2("context", S("."), "additional_contexts", M2("src", S("https://example.com/r.git?ref=v1&depth=1"), "img", S("docker-image://x:1")))],
+  [n |-> "labels list with = in the value", top |-> FALSE, p |-> <<"labels">>, short |-> Sq2(S("k=a=b"), S("q==")), long |-> M2("k", S("a=b"), "q", S("="))],
   [n |-> "sysctls list", top |-> FALSE, p |-> <<"sysctls">>, short |-> Sq1(S("net.core.somaxconn=1024")), long |-> M1("net.core.somaxconn", S("1024"))],
   [n |-> "annotations list", top |-> FALSE, p |-> <<"annotations">>, short |-> Sq1(S("k=v")), long |-> M1("k", S("v"))],
   [n |-> "extra_hosts list =", top |-> FALSE, p |-> <<"extra_hosts">>, short |-> Sq2(S("h1=10.0.0.1"), S("h2:10.0.0.2")), long |-> M2("h1", S("10.0.0.1"), "h2", S("10.0.0.2"))],
